@@ -110,11 +110,16 @@ func genC10(seed uint64) *Scenario {
 		}
 		op.ReuseSV = reuseSV && op.Kind == KSpec && op.COE != nil
 		if i == 1 {
-			// make sure every run repeats at least one (document, option) pair under another order
+			// make sure every run repeats at least one (document, option) pair under another order: the same bytes (with
+			// reuse_doc the very same loaded object, which the first validation may have altered)
 			for k := range ops {
 				if ops[k].Kind == KSpec && ops[k].Doc == doc && ops[k].COE != nil {
 					op.Kind, op.COE = KSpec, bp(*ops[k].COE)
 					op.ReuseSV = reuseSV
+					op.Reorder, op.YAML = ops[k].Reorder, ops[k].YAML
+					if reuse {
+						op.ReuseDoc, ops[k].ReuseDoc = true, true
+					}
 					break
 				}
 			}
@@ -705,7 +710,7 @@ func init() {
 		ID: "C10", Level: "exploration",
 		Gen:       func(seed uint64, tier string, idx int) *Scenario { return genC10(mixSeed(seed, uint64(idx))) },
 		Run:       runC10,
-		QuickRuns: 560, ThoroughS: 1500,
+		QuickRuns: 840, ThoroughS: 1500,
 		Rule: "one run = one document (generated mini specification with 0..8 rule-breaking edits out of 41 kinds, or a small repository fixture) validated 2..8 times - the same loaded document object or freshly loaded bytes, one Swagger meta-schema object for the run or each document's own - under different seeded map iteration orders (= Go's per-process randomisation, made replayable), " +
 			"from JSON, member-reordered JSON or YAML-converted bytes, with continue-on-errors false/true set per validator or through the package-level setter, after other validations (other documents included) and after a reset of all process-wide state, then once more in a fresh OS process; a quarter of the generated documents come with a twin carrying 1..3 extra warning-only conditions, validated under both settings; " +
 			"non-trivial = at least two whole-spec validations; distinct = distinct (document, option/serialisation sequence)",
